@@ -30,6 +30,8 @@ let show_line (l : z list) : string = String.concat " " (List.map string_of_cz l
 
 let engines : (string * (z list -> (z list * z list) list -> verdict)) list = [
   ("storage", chk_storage);
+  ("array", chk_array);
+  ("health", chk_health);
 ]
 
 let () =
